@@ -120,6 +120,9 @@ pub fn run_regress<C: PropCheck>(check: &C, cfg: &RunCfg, findings: &Findings) -
                 rep.errors.push(format!("bad regress file {}", p.display()));
                 continue;
             };
+            if !check.owns_case(&v["case"]) {
+                continue;
+            }
             match check.case_from_json(&v["case"]) {
                 Ok(c) => cases.push(c),
                 Err(e) => rep.errors.push(format!("regress file {}: {}", p.display(), e)),
